@@ -15,7 +15,16 @@ import (
 	"github.com/Vedant9500/WTF/internal/zzverif/vlib"
 )
 
-func init() { engines["notebook"] = engineNotebook }
+func init() {
+	engines["notebook"] = engineNotebook
+	// texts of several lines that begin with a character an encoder has to look at before choosing a style: a pasted Makefile
+	// recipe (tab first), a line or paragraph separator, an indicator character, a byte-order mark
+	for _, lead := range []string{"\t", "\u2028", "\u2029", "\u0085", "\u00a0", "\ufeff", "#", "-", "- ", "|", ">", "!", "&", "*", "%", "@", "`", "'", "\"", "[", "{", ":", "?", ",", "\r"} {
+		for _, body := range []string{"go build ./...\n\tgo test ./...", "l1\nl2\n", "l1\n\nl3", "l1\n  indented", "l1\r\nl2"} {
+			c08Hostile = append(c08Hostile, lead+body)
+		}
+	}
+}
 
 var c08Hostile = []string{"-rf", "--force", "- leading dash space", "key: value", "a #comment", " #x", "'single'", "\"double\"", "it's", "{{.Names}}", "{a: b}", "[1, 2]",
 	"null", "Null", "~", "true", "yes", "no", "123", "1e3", "0x1f", "1_000", "-0", ".inf", "2001-01-01", " leading blank", "trailing blank ", "  ", "tab\tinside", "\ttab first",
